@@ -265,7 +265,7 @@ Qed.
 
 Theorem step_dinv : forall s o, d_inv s -> d_inv (fst (step s o)) /\ dnl_life (fst (step s o)) = dnl_life s.
 Proof.
-  intros s o D. destruct o as [d|c|n w f|n cbp mbf|face n cbp mbf nonce life sent|n w f tok| | |u]; simpl.
+  intros s o D. destruct o as [d|c|n w f|n cbp mbf|face n cbp mbf nonce life sent|n w f tok| | |u|sid sn]; simpl.
   - split; [|reflexivity]. apply (d_inv_same s _ D); try reflexivity; simpl; lia.
   - split; [|reflexivity]. apply (d_inv_same s _ D); try reflexivity; simpl; lia.
   - destruct (dsame_drel _ _ (dsame_insert_data s n w f)) as [A [B C]]. split; [apply C; exact D|exact A].
@@ -281,6 +281,8 @@ Proof.
     apply H.
   - unfold mgmt_cap. destruct (max_int <? u)%N; [split; [exact D|reflexivity]|].
     split; [|reflexivity]. apply (d_inv_same s _ D); try reflexivity; simpl; lia.
+  - unfold stale_remove. destruct (mem_N sid (tokmap s)); [split; [exact D|reflexivity]|].
+    destruct (dsame_drel _ _ (dsame_remove_interest s (mkpit sid sn false false [] [] 0 false false))) as [A [B C]]. split; [apply C; exact D|exact A].
 Qed.
 
 Lemma init_dinv : forall t0 c sv ad life, d_inv (init t0 c sv ad life).
